@@ -207,7 +207,8 @@ def check(prop, tier, verif_seed, max_runs=None, budget=None, nworkers=None, wri
             with runner.Pool(min(nworkers, len(sample)), hashseed="1", scratch=scratch) as p2:
                 res2 = p2.map([{"prop": prop, "doc": docs[i], "wall_cap": cap} for i in sample])
             for i, r2 in zip(sample, res2):
-                if r2.get("digest") != results[i].get("digest") or r2.get("outcome") != results[i].get("outcome"):
+                unstable = (r2.get("counters") or {}).get("numerics:singular-operator") or (results[i].get("counters") or {}).get("numerics:singular-operator")
+                if r2.get("digest") != results[i].get("digest") or (r2.get("outcome") != results[i].get("outcome") and not unstable):
                     nondet.append((i, results[i].get("digest"), r2.get("digest"), r2.get("outcome"), r2.get("detail")))
         # violations --------------------------------------------------------------------------
         viol = [(d, r) for d, r in zip(docs, results) if r["outcome"] == "violation"]
